@@ -572,12 +572,63 @@ func TestC06(t *testing.T) {
 	}
 
 	leastConnThroughStack(run)
+	roundRobinThroughStack(run)
 	run.Require("through_stack_probe_rounds", 8)
 	run.Require("lists_enumerated", 1000)
 	run.Require("rr_histories_linearizable", int64(rrConc*9/10))
 	run.Require("lc_concurrent_selects", 1000)
 	run.Require("tier_lists", 20)
 	run.Finish(t)
+}
+
+// roundRobinThroughStack: round-robin through the running proxy over a stable set of healthy
+// endpoints: every n consecutive requests reach n different endpoints.
+func roundRobinThroughStack(run *rep.Run) {
+	for ei, eng := range []string{"sherpa", "olla"} {
+		for _, n := range []int{3, 4} {
+			pr := make([]int, n)
+			for i := range pr {
+				pr[i] = 100
+			}
+			f, err := fw.New(fw.Opt{Engine: eng, Balancer: "round-robin", N: n, Priorities: pr})
+			if err != nil {
+				run.Inconclusive("world failed to start: " + err.Error())
+				return
+			}
+			hc := world.NewClient(false, 10*time.Second)
+			oks := make([]fw.Fault, n)
+			for i := range oks {
+				oks[i] = fw.Fault{Kind: "ok"}
+			}
+			var seq []int
+			for i := 0; i < n*rep.Pick(10, 40); i++ {
+				c := f.Run(hc, fmt.Sprintf("rr%dn%di%d", ei, n, i), oks, "", nil, nil)
+				if len(c.Attempts) != 1 {
+					seq = nil
+					run.Inconclusive(fmt.Sprintf("round-robin through the stack: a request made %d attempts although every endpoint answers", len(c.Attempts)))
+					break
+				}
+				seq = append(seq, c.Attempts[0].Backend)
+			}
+			f.Close()
+			if seq == nil {
+				continue
+			}
+			run.Eval(fmt.Sprintf("round-robin/through-stack/%s/n=%d", eng, n))
+			run.Count("rr_stack_selections", int64(len(seq)))
+			for i := 0; i+n <= len(seq); i++ {
+				seen := map[int]bool{}
+				for _, b := range seq[i : i+n] {
+					seen[b] = true
+				}
+				if len(seen) != n {
+					run.Violation("C06/round-robin/through-stack/window-not-a-permutation/"+eng, fmt.Sprintf("%d healthy endpoints, nothing changes, yet requests %d..%d went to %v", n, i, i+n-1, seq[i:i+n]),
+						map[string]any{"engine": eng, "n": n, "landing_sequence": seq})
+					break
+				}
+			}
+		}
+	}
 }
 
 // leastConnThroughStack: least-connections through the running proxy. A request is parked
